@@ -53,7 +53,9 @@ prop("C14", [_lazy("state", "rule_ctx1"), _lazy("state", "rule_ctx2"), _lazy("st
              _lazy("cli_fail", "rule_atom"),
              _lazy("misc2", "rule_proc1"),
              _lazy("misc", "rule_eqhash1"),
-             _lazy("misc2", "rule_genpure1")],
+             _lazy("misc2", "rule_genpure1"),
+             _lazy("misc2", "rule_defarg1"),
+             _lazy("naming", "rule_uniq6")],
      "Static decision of the clauses of C14 that are visible in code shape: the thread-local reference context is "
      "saved/restored on every exit and only used through `with` (CTX-1..3); no function reachable from a library "
      "entry point writes module-level, class-level, closure or default-argument state (GLOB-1, effect summaries "
@@ -68,7 +70,9 @@ prop("C15", [_lazy("state", "rule_tls1"), _lazy("state", "rule_glob1"), _lazy("s
              _lazy("misc", "rule_lock1"),
              _lazy("misc", "rule_tmp1"),
              _lazy("misc2", "rule_proc1"),
-             _lazy("misc2", "rule_iterself1")],
+             _lazy("misc2", "rule_iterself1"),
+             _lazy("cli_flow", "rule_regdeliv1"),
+             _lazy("misc2", "rule_defarg1")],
      "Static decision of: every read of a threading.local attribute is safe in a thread that never wrote it "
      "(TLS-1: defined by a threading.local subclass, or dominated by a write in the same function; an import-time "
      "assignment does not count); independent pipelines share no written state (GLOB-1, CACHE-1).",
@@ -91,7 +95,8 @@ prop("C17", [_lazy("cli_fail", "rule_atom"), _lazy("cli_fail", "rule_exc1"), _la
              _lazy("misc2", "rule_match1"),
              _lazy("dictkeys", "rule_rx1"),
              _lazy("cli_flow", "rule_optflow6"),
-             _lazy("misc2", "rule_regexval1")],
+             _lazy("misc2", "rule_regexval1"),
+             _lazy("misc2", "rule_defarg1")],
      "Static decision of: every file-mutating call reachable from main is classified, and each write-capable one "
      "is a `with` block whose body only writes locals defined before the open, with no call that can fail "
      "reachable afterwards in that function or, after it returns, in its callers up to main (ATOM-1/2, CFG "
@@ -113,7 +118,8 @@ prop("C05", [_lazy("registry", "rule_reg12"), _lazy("registry", "rule_reg3"), _l
              _lazy("misc2", "rule_dsu1"),
              _lazy("misc2", "rule_eqcyc1"),
              _lazy("misc2", "rule_closure1"),
-             _lazy("cli_flow", "rule_optflow6_merge")],
+             _lazy("cli_flow", "rule_optflow6_merge"),
+             _lazy("misc2", "rule_stale1")],
      "Static decision of: the registry mapping is written only by ModelRegistry, and every call that removes a "
      "model is, in the same loop iteration and unconditionally, followed by snapshot loops retargeting all pointers "
      "and re-parenting all child references to the one replacement, which is registered after the loop and built "
@@ -135,7 +141,8 @@ prop("C09", [_lazy("strtypes", "rule_det1"), _lazy("strtypes", "rule_det2"), _la
              _lazy("strtypes", "rule_regdup1"),
              _lazy("misc", "rule_cacheinv1"),
              _lazy("misc2", "rule_date1"),
-             _lazy("state", "rule_glob1_converters")],
+             _lazy("state", "rule_glob1_converters"),
+             _lazy("perm", "rule_perm1")],
      "Static decision of the protocol clauses of C09: a registry class is returned as the detected type only where "
      "a completed call of that class's own parser on the unmodified input dominates the return and the rejecting "
      "handler cannot fall through (DET-1); the registry iterates its registration list, which is only appended to "
@@ -173,7 +180,8 @@ prop("C13", [_lazy("dictkeys", "rule_rx1"), _lazy("dictkeys", "rule_dk"), _lazy(
              _lazy("misc", "rule_memokey1"),
              _lazy("infer", "rule_eq1"),
              _lazy("strtypes", "rule_cover1"),
-             _lazy("infer", "rule_opt")],
+             _lazy("infer", "rule_opt"),
+             _lazy("misc2", "rule_stale1")],
      "Static decision of: the text the CLI compiles from each --dict-keys-regex value is, in every variant the code "
      "can produce, ^ + group containing the unmodified user pattern + $ (regex parse tree with the user part as a "
      "hole), without flags (RX-1); the per-field flag is passed only by _convert as `key not in dict_keys_fields` "
@@ -216,7 +224,9 @@ prop("C16", [_lazy("cli_flow", "rule_optflow1"), _lazy("cli_flow", "rule_optflow
              _lazy("misc2", "rule_load5"),
              _lazy("misc2", "rule_runloop1"),
              _lazy("strtypes", "rule_det3"),
-             _lazy("misc2", "rule_lookup2")],
+             _lazy("misc2", "rule_lookup2"),
+             _lazy("misc2", "rule_match1"),
+             _lazy("misc2", "rule_stale1")],
      "Static decision of: every add_argument destination is read from the namespace and nothing else is "
      "(OPTFLOW-1); each option's value flows (forward taint through Cli's methods, attribute cells, dict keys, "
      "called callables) to its documented library parameter, not into another option's slot, and no hop of that "
@@ -241,7 +251,8 @@ prop("C18", [_lazy("converters", "rule_tok1"), _lazy("converters", "rule_tok2"),
              _lazy("strtypes", "rule_cover1"),
              _lazy("infer", "rule_opt"),
              _lazy("strtypes", "rule_res1"),
-             _lazy("cli_flow", "rule_optflow_strconv")],
+             _lazy("cli_flow", "rule_optflow_strconv"),
+             _lazy("misc2", "rule_stale1")],
      "Static decision of: the path tokens and both separators emitted by the generator are the ones the post-init "
      "interpreter dispatches / splits on, and its type-argument index per container token matches the emitted "
      "annotation form (TOK-1); every IR class that rapid type analysis shows the inference pipeline can put in a "
@@ -260,7 +271,8 @@ prop("C10", [_lazy("emit", "rule_lim"), _lazy("emit", "rule_inj3"), _lazy("emit"
              _lazy("infer", "rule_val1"),
              _lazy("imports", "rule_shadow1"),
              _lazy("cli_flow", "rule_optflow6_lit"),
-             _lazy("misc2", "rule_anyelem1")],
+             _lazy("misc2", "rule_anyelem1"),
+             _lazy("infer", "rule_nulldet")],
      "Static decision of: every comparison of a literal count with MAX_LITERALS, of a member length with "
      "MAX_STRING_LENGTH and of the member count with the configured maximum flips exactly at the documented "
      "boundary (evaluated at limit-1, limit, limit+1 after normalisation) and compares the size of ONE collection; "
@@ -280,7 +292,8 @@ prop("C11", [_lazy("emit", "rule_inj2"), _lazy("emit", "rule_inj5"), _lazy("emit
              _lazy("misc", "rule_gencall1"),
              _lazy("misc2", "rule_keytruth1"),
              _lazy("misc2", "rule_encerr1"),
-             _lazy("misc2", "rule_inj6")],
+             _lazy("misc2", "rule_inj6"),
+             _lazy("naming", "rule_uniq6")],
      "Static decision of: every use of the original key in the field_data family is a comparison, a label "
      "conversion, a container display (rendered by repr) or an exact escaper in code context (INJ-2); on every "
      "feasible path of each generator the original key is attached and rendered whenever the name differs (and "
@@ -306,7 +319,10 @@ prop("C03", [_lazy("imports", "rule_imp1"), _lazy("imports", "rule_imp2"), _lazy
              _lazy("misc2", "rule_sig1"),
              _lazy("registry", "rule_reg12"),
              _lazy("misc2", "rule_lay5"),
-             _lazy("misc2", "rule_inj6")],
+             _lazy("misc2", "rule_inj6"),
+             _lazy("header", "rule_inj4"),
+             _lazy("naming", "rule_rename1"),
+             _lazy("naming", "rule_uniq6")],
      "Static decision of: every import tuple a generator can emit (symbolic components expanded over the class "
      "tables) names an existing module and a name bound at its top level, read from the installed sources "
      "(IMP-1); every identifier in an emitted code fragment (templates, default/factory/converter strings, bases) "
@@ -332,7 +348,8 @@ prop("C04", [_lazy("emit", "rule_sib1"), _lazy("emit", "rule_sib2"), _lazy("emit
              _lazy("misc2", "rule_keytruth1"),
              _lazy("misc2", "rule_lay5"),
              _lazy("cli_flow", "rule_optflow6_lit"),
-             _lazy("misc2", "rule_inj6")],
+             _lazy("misc2", "rule_inj6"),
+             _lazy("naming", "rule_uniq6")],
      "Static decision of: on every feasible path of each framework's field_data (path enumeration with a small "
      "abstract state for the kwargs dict) an optional list/dict/scalar field carries default list/dict/None to "
      "the emitted body and a required field carries none; the optional flag is the sort_fields group, decided by "
@@ -353,7 +370,8 @@ prop("C12", [_lazy("layout", "rule_lay1"), _lazy("layout", "rule_lay2"), _lazy("
              _lazy("registry", "rule_reg12"),
              _lazy("misc2", "rule_keytruth1"),
              _lazy("misc2", "rule_lay4"),
-             _lazy("misc2", "rule_lay5")],
+             _lazy("misc2", "rule_lay5"),
+             _lazy("naming", "rule_uniq6")],
      "Static decision of: in both layout functions the table of structure entries is built once up front and never "
      "rewritten in the placement loop, and on every non-raising path through the per-model loop (path enumeration; "
      "try/except counted once because insert_before raises before inserting) the current model's entry is inserted "
@@ -382,7 +400,8 @@ prop("C01", [_lazy("infer", "rule_opt"), _lazy("infer", "rule_opt2"), _lazy("inf
              _lazy("emit", "rule_sib2"),
              _lazy("emit", "rule_inj2"),
              _lazy("naming", "rule_uniq4"),
-             _lazy("converters", "rule_tok3")],
+             _lazy("converters", "rule_tok3"),
+             _lazy("naming", "rule_uniq6")],
      "Static decision of the optionality / completeness clauses of C01: on every feasible path of the per-field merge "
      "loop (path enumeration with the equality axioms of EQ-1/NF-3) the value left in the merged set is optional "
      "whenever the stored or the incoming side was optional or the field is new in a later set, and the stored type "
